@@ -274,6 +274,7 @@ class Recorder:
         tgt.append(('C',))
 
     def _after_commit(self, session):
+        (self.cur['events'] if self.cur is not None else self.loose).append(('K',))     # the preceding COMMIT went through
         if self.cur is not None:
             self.cur['snaps'].append((len(self.cur['events']), 'after-commit', self.snap('after-commit')))
 
@@ -294,12 +295,26 @@ def norm_positions(events):
         elif e[0] == 'C':
             out.append(e)
             dirty = False
+        elif e[0] == 'F':
+            out.append(e)
         elif e[0] == 'R':
             if dirty:
                 out.append(e)
             dirty = False
         pos.append(len(out))
     return out, pos
+
+
+def mark_failed_commits(events):
+    """('C',) not confirmed by the session's after_commit marker ('K',) before the next C/R -> ('F',): the COMMIT was refused."""
+    out = []
+    for i, e in enumerate(events):
+        if e[0] == 'C':
+            nxt = next((x[0] for x in events[i + 1:] if x[0] in ('K', 'C', 'R')), None)
+            out.append(e if nxt == 'K' else ('F',))
+        else:
+            out.append(e)
+    return out
 
 
 # ---------------------------------------------------------------------------------- Coq printers
@@ -384,6 +399,8 @@ def coq_shape(events, acked=True):
             out.append('SC')
         elif e[0] == 'R':
             out.append('SR')
+        elif e[0] == 'F':
+            out.append('SF')
     if acked:
         out.append('SA')
     return '[%s]' % '; '.join(out)
@@ -1131,6 +1148,247 @@ def kill_cases(ctx, wl_seed, n_steps, found):
     return cases, meta, upto
 
 
+# ---------------------------------------------------------------------------------- connection settings (tie to `recover`)
+JOURNAL = {'delete': 0, 'truncate': 1, 'persist': 2, 'wal': 3, 'memory': 4, 'off': 5}
+
+
+def conn_settings(eng):
+    """Durability settings of the LIVE pooled DBAPI connection the engine's sessions use (read-only PRAGMA queries)."""
+    raw = eng.engine._data_store.raw_connection()
+    try:
+        c = raw.driver_connection
+        q = lambda sql: c.execute(sql).fetchone()[0]
+        iso = c.isolation_level
+        auto = getattr(c, 'autocommit', -1)
+        out = {'journal_mode': str(q('PRAGMA journal_mode')).lower(), 'synchronous': int(q('PRAGMA synchronous')),
+               'locking_mode': str(q('PRAGMA locking_mode')).lower(),
+               'driver_autocommit': bool(iso is None or auto is True or auto == 1),
+               'isolation_level': iso, 'in_transaction': bool(c.in_transaction)}
+    finally:
+        raw.close()
+    return out
+
+
+def check_settings(ctx, eng, when, cases, meta, history):
+    st = conn_settings(eng)
+    ctx.count('settings.checked')
+    ctx.count('settings.journal_mode.%s' % st['journal_mode'])
+    unsafe = []
+    if st['journal_mode'] in ('memory', 'off'):
+        unsafe.append('journal_mode=%s: no on-disk rollback journal, a COMMIT interrupted by process death cannot be undone' % st['journal_mode'])
+    if st['synchronous'] < 1:
+        unsafe.append('synchronous=OFF')
+    if st['driver_autocommit']:
+        unsafe.append('the driver connection is in autocommit mode: every statement is its own transaction')
+    if st['locking_mode'] != 'normal':
+        unsafe.append('locking_mode=%s' % st['locking_mode'])
+    if st['in_transaction']:
+        # not demanded by C09 (what is pending is not durable): on the unchanged tree SQLAlchemy leaves the DBAPI transaction
+        # open after a refused COMMIT (RootTransaction marked closed, pool skips its rollback-on-return); recorded only
+        ctx.count('settings.transaction-left-open-on-pooled-connection.' + when.split(':')[0].replace(' ', '-'))
+    for u in unsafe:
+        ctx.violation({'class': 'connection-settings', 'when': when.split(':')[0]}, {'when': when, 'settings': st, 'history': history[-12:]},
+                      'the engine\'s database connection %s: %s' % (when, u))
+    cases.append('CConn %s %s %s %s' % (cp.z(JOURNAL.get(st['journal_mode'], 9)), cp.z(st['synchronous']),
+                                        cp.z(0 if st['locking_mode'] == 'normal' else 1), cp.z(1 if st['driver_autocommit'] else 0)))
+    meta.append({'case': 'connection-settings', 'when': when, 'settings': st})
+    return st
+
+
+# ---------------------------------------------------------------------------------- refused COMMIT ('database is locked')
+def commit_failure_runs(ctx, cases, meta):
+    """Every kind of state-changing operation is run once while a second SQLite connection (in this process, standing for a
+    backup job or an sqlite3 shell) holds a read transaction on the file, so that the engine's COMMIT is refused with
+    'database is locked' (busy timeout of the engine's connection shortened to 80 ms for the purpose); the server is then
+    'restarted' (fresh engine on a copy of the file) and acknowledged == stored is checked; the same operation is then run
+    again undisturbed.  The connection settings are compared before and after every operation."""
+    hdir = ctx.work / 'lock'
+    hdir.mkdir(parents=True, exist_ok=True)
+    eng = kdrv.Engine(workdir=str(hdir))
+    history = []
+    check_settings(ctx, eng, 'after start-up', cases, meta, history)
+    box = {}
+
+    def attach():
+        raw = eng.engine._data_store.raw_connection()
+        raw.driver_connection.execute('PRAGMA busy_timeout=80')
+        raw.close()
+        box['rec'] = Recorder(eng, hdir / 'snaps', snapshots=False)
+
+    def restart_server():
+        # process death + restart on the same file: the old process's connections vanish (pending work is lost)
+        box['rec'].detach()
+        eng.engine._data_store.dispose()
+        eng.restart()
+        attach()
+    attach()
+    gen = Gen(ctx.subrng('lock'), True)
+    script = gen.scripted()
+    n = [0]
+
+    def restart_view():
+        n[0] += 1
+        dst = str(hdir / ('v%04d.db' % n[0]))
+        shutil.copyfile(eng.path, dst)
+        o = observe(dst)
+        os.unlink(dst)
+        return o
+
+    def serve(step_fn, locked):
+        descs, items, version = step_fn()
+        rec = box['rec']
+        first = len(rec.items)
+        del rec.loose[:]
+        blocker = None
+        if locked:
+            blocker = sqlite3.connect(eng.path, isolation_level=None, timeout=0.05)
+            blocker.execute('BEGIN')
+            blocker.execute('select count(*) from sqlite_master').fetchall()
+        t0 = time.time()
+        try:
+            r = eng.request(items, version=version, user='alice')
+        finally:
+            if blocker is not None:
+                blocker.rollback()
+                blocker.close()
+        dt = time.time() - t0
+        recd = rec.items[first:]
+        events = (recd[0]['events'] if recd else []) + list(rec.loose)
+        return descs[0], (r['items'][0] if r['items'] else None), events, dt, r
+
+    try:
+        for idx, step_fn in enumerate(script):
+            pre = restart_view()
+            # 1. with the COMMIT refused
+            state = (gen.counter, list(gen.uids), {k: list(v) for k, v in gen.names.items()}, list(gen.derivable))
+            d, it, events, dt, r = serve(step_fn, locked=True)
+            gen.counter, gen.uids, gen.names, gen.derivable = state[0], state[1], state[2], state[3]
+            kind = d['kind'] if d['kind'] != 'attr' else 'attr.' + d['how']
+            st_after = conn_settings(eng)
+            if st_after['in_transaction']:
+                ctx.count('lock.transaction-left-open-after-refused-commit')
+            restart_server()
+            post = restart_view()
+            history.append({'step': idx, 'op': {k: v for k, v in d.items() if k != 'ws'}, 'commit': 'refused (database is locked)',
+                            'answer': (it['status'], it['reason'], it['message']) if it else r['error'], 'seconds': round(dt, 2)})
+            events = mark_failed_commits(events)
+            refused = any(e[0] == 'F' for e in events)
+            ctx.count('lock.%s.%s' % (kind, 'commit-refused' if refused else 'commit-not-refused'))
+            st = check_settings(ctx, eng, 'after %s with a refused COMMIT' % kind, cases, meta, history)
+            wit = {'history': history[-12:], 'operation': history[-1]['op'], 'events': repr(events),
+                   'how': 'second sqlite3 connection holds BEGIN; SELECT on the database file while the request is served; '
+                          'then a fresh engine on a copy of the file reads everything',
+                   'before': pre['proj'], 'after_restart': post['proj']}
+            for pr in post['problems']:
+                ctx.violation({'class': 'unreadable-or-partial', 'op': d['kind'], 'cut': 'refused-commit'}, dict(wit, problem=pr),
+                              'after %s with a refused COMMIT the restarted server finds: %s' % (kind, pr))
+            if it is not None:
+                if kdrv.ok(it):
+                    msg = effect_missing(d, it, pre, post)
+                    if msg:
+                        ctx.violation({'class': 'acknowledged-not-durable', 'op': d['kind'], 'cut': 'refused-commit'}, wit,
+                                      '%s reported SUCCESS while its COMMIT was refused (database is locked); after restart %s' % (kind, msg))
+                elif not same_obs(pre, post):
+                    ctx.violation({'class': 'failed-operation-left-traces', 'op': d['kind'], 'cut': 'refused-commit'}, wit,
+                                  '%s answered %s but the store changed' % (kind, it['reason']))
+                ctx.case_seen(('lock', idx, kind, post['proj']), nontrivial=refused)
+                desc = describe(ctx, d, it, [e for e in events if e[0] != 'F'], pre['proj'], post['proj']) if d['kind'] not in ('attr', 'link-create') else None
+                if desc is not None and refused:
+                    cases.append('CFail %s %s %s %s %s' % (coq_store(pre['proj']), coq_op(desc), coq_shape(events),
+                                                           cp.boolean(kdrv.ok(it)), coq_store(post['proj'])))
+                    meta.append({'case': 'refused-commit', 'op': {k: v for k, v in desc.items() if k != 'ws'}, 'events': repr(events),
+                                 'answer': history[-1]['answer'], 'history': history[-12:]})
+            # 2. undisturbed, so that the scenario goes on
+            d, it, events, dt, r = serve(step_fn, locked=False)
+            history.append({'step': idx, 'op': {k: v for k, v in d.items() if k != 'ws'}, 'commit': 'undisturbed',
+                            'answer': (it['status'], it['reason'], it['message']) if it else r['error']})
+            if it is not None:
+                gen.learn(d, it)
+            check_settings(ctx, eng, 'after %s' % kind, cases, meta, history)
+    finally:
+        box['rec'].detach()
+        eng.close()
+
+
+# ---------------------------------------------------------------------------------- death inside the COMMIT write-out
+BIG_VALUE = bytes(bytearray((i * 7 + 3) % 251 for i in range(24 * 1024)))
+
+
+def fsize_injection(ctx):
+    """Process death BETWEEN two page writes of a COMMIT: a forked server with RLIMIT_FSIZE = L (SIGXFSZ restored to its
+    default action) registers a 24 KiB opaque object on a copy of a prepared database; the kernel kills it at the first
+    write that would make a file (database or journal) longer than L; for every L the survivor is reopened, listed, read
+    and compared with the state before / after the Register.  Supports the tie (SQLite's own commit protocol is trusted)."""
+    import resource
+    base = ctx.work / 'fsize'
+    base.mkdir(parents=True, exist_ok=True)
+    eng = kdrv.Engine(path=str(base / 'prelude.db'))
+    u = kdrv.first_uid(eng.request([kdrv.create(names=['k1'])])['items'][0])
+    eng.request([kdrv.activate(u)])
+    eng.request([kdrv.register(OT.OPAQUE_DATA, secret=kdrv.secret_for(OT.OPAQUE_DATA, b'\x5a' * 64), names=['small'])])
+    eng.engine._data_store.dispose()
+    prelude = str(base / 'prelude.db')
+    size0 = os.path.getsize(prelude)
+    big = lambda: kdrv.register(OT.OPAQUE_DATA, secret=kdrv.secret_for(OT.OPAQUE_DATA, BIG_VALUE), names=['big'])
+    # reference: the Register undisturbed
+    refp = str(base / 'ref.db')
+    shutil.copyfile(prelude, refp)
+    e2 = kdrv.Engine(path=refp)
+    rr = e2.request([big()])
+    e2.engine._data_store.dispose()
+    if not kdrv.ok(rr['items'][0]):
+        ctx.disagreement('fsize', {'problem': 'reference Register failed', 'answer': rr['items'][0]['message']})
+        return
+    size1 = os.path.getsize(refp)
+    pre, post = observe(prelude), observe(refp)
+    died = 0
+    limits = list(range(4096, size1 + 4096, 4096))
+    for L in limits:
+        p = str(base / ('l%07d.db' % L))
+        shutil.copyfile(prelude, p)
+        rfd, wfd = os.pipe()
+        pid = os.fork()
+        if pid == 0:
+            try:
+                os.close(rfd)
+                signal.signal(signal.SIGXFSZ, signal.SIG_DFL)
+                resource.setrlimit(resource.RLIMIT_FSIZE, (L, L))
+                e = kdrv.Engine(path=p)
+                r = e.request([big()])
+                os.write(wfd, b'ACK' if kdrv.ok(r['items'][0]) else b'NAK')
+            finally:
+                os._exit(0)
+        os.close(wfd)
+        _, status = os.waitpid(pid, 0)
+        said = os.read(rfd, 16)
+        os.close(rfd)
+        killed = os.WIFSIGNALED(status)
+        died += 1 if killed else 0
+        o = observe(p)
+        wit = {'how': 'fork; RLIMIT_FSIZE=%d with default SIGXFSZ; Register of a 24 KiB opaque object on a copy of the prepared database '
+                      '(%d bytes before, %d after); restart' % (L, size0, size1),
+               'file_size_limit': L, 'server_died': killed, 'server_said': said.decode(), 'journal_left': os.path.exists(p + '-journal')}
+        for pr in o['problems']:
+            ctx.violation({'class': 'unreadable-or-partial', 'op': 'register', 'cut': 'inside-commit'}, dict(wit, problem=pr),
+                          'process death inside the COMMIT of a Register (file size limit %d): the restarted server finds: %s' % (L, pr))
+        if not o['problems']:
+            is_pre, is_post = same_obs(o, pre), same_obs(o, post)
+            if not (is_pre or is_post):
+                ctx.violation({'class': 'neither-before-nor-after', 'op': 'register', 'cut': 'inside-commit'}, dict(wit, found=o['proj']),
+                              'process death inside the COMMIT of a Register (file size limit %d) leaves neither the state before nor after' % L)
+            if said == b'ACK' and not is_post:
+                ctx.violation({'class': 'acknowledged-not-durable', 'op': 'register', 'cut': 'inside-commit'}, wit,
+                              'Register acknowledged before the process died, absent after restart')
+        ctx.case_seen(('fsize', L, o['proj']), nontrivial=killed)
+        for suffix in ('', '-journal'):
+            try:
+                os.unlink(p + suffix)
+            except OSError:
+                pass
+    ctx.count('fsize.limits', len(limits))
+    ctx.count('fsize.server-died', died)
+
+
 # ---------------------------------------------------------------------------------- check
 def run(ctx):
     quick = ctx.tier == 'quick'
@@ -1139,12 +1397,19 @@ def run(ctx):
                        'link-table attributes; valid and refused variants; live, destroyed and never-issued identifiers).  One evaluation '
                        '= one cut (copy of database file + journal taken before/after a statement, before/after the commit, at item end, at '
                        'the acknowledgement, or a SIGKILL) reopened by a fresh engine, listed and read; distinct = different '
-                       '(history, step, operation, cut position, rows found).')
+                       '(history, step, operation, cut position, rows found).  Plus: every kind of operation served once while a second '
+                       'SQLite connection holds a read lock so that its COMMIT is refused (acknowledged vs stored after a restart); a forked '
+                       'server killed by RLIMIT_FSIZE/SIGXFSZ at every 4 KiB file-size limit inside the COMMIT of a growing Register; the '
+                       'durability settings of the live connection after start-up and after every operation.')
     ctx.cov['trusted_extra'] = [
         'TRUSTED (runtime remainder of C09, not modelled): SQLite atomic commit and hot-journal recovery, fsync ordering, the file '
         'system and page cache; SQLAlchemy unit-of-work flushing every pending change inside the transaction that commit() ends. '
         'The model\'s `recover` (durable state = state after the last Commit before the cut) IS this assumption.',
         'Crash injection (file+journal copies at every statement/commit boundary; SIGKILL of a forked worker) supports the tie; it is not a proof.',
+        'The connection settings `recover` presupposes (on-disk journal or WAL, synchronous >= FULL(2), locking_mode NORMAL, driver '
+        'not in autocommit) are read from the live pooled connection (PRAGMA queries) and compared in Coq (settings_ok).',
+        'Lock injection: the harness shortens the busy timeout of the engine\'s connection to 80 ms (PRAGMA busy_timeout) so that a '
+        'refused COMMIT costs 0.1 s instead of 5 s; the engine is restarted (pool disposed, new KmipEngine) after each refused COMMIT.',
         'Instrumentation attached from outside: sqlalchemy.event listeners on engine._data_store / session factory; '
         '_process_operation wrapped on the engine instance to delimit batch items.']
     ctx.prove('props/C09.v')
@@ -1162,6 +1427,8 @@ def run(ctx):
         cases += c
         meta += m
     ctx.log('histories: %d operations recorded, %d cuts reopened' % (len([m for m in meta if m['case'] == 'shape']), ctx.cov['evaluations']))
+    fsize_injection(ctx)               # first: a hit here is a concrete death point with an unopenable store
+    commit_failure_runs(ctx, cases, meta)
     n_kills, kill_steps = (60, 14) if quick else (400, 20)
     wl_seed, found = kill_runs(ctx, n_kills, kill_steps)
     kc, km, upto = kill_cases(ctx, wl_seed, kill_steps, found)
